@@ -21,8 +21,7 @@ WIDTH = {"pub": 256, "sub": 256, "topic": 65536, "writer": 65536, "reader": 6553
 # causes of the findings fixed by fixes/D40.patch, fixes/D-tree-1.patch, fixes/D-tree-2.patch are no longer emitted:
 # a creation that crashes at the counter rail, a participant that cannot be deleted because of a content-filtered
 # topic, a topic deleted while used through a content-filtered topic are plain violations now
-CAUSE_UNREG = "instance-still-known-after-unregister"
-CAUSE_LOOKUP_KEYLESS = "lookup-instance-keyless-not-refused"
+# (the causes of D33 / D33b are no longer emitted: fixes/D33.patch, fixes/D33b.patch; such answers are plain violations)
 CREATE_OPS = ("participant", "publisher", "subscriber", "topic", "cft", "writer", "reader")
 INST_OPS = ("register", "unregister", "dispose", "lookup", "write")
 
@@ -36,6 +35,19 @@ def kv_of(tokens):
         else:
             plain.append(t)
     return plain, kv
+
+
+def cft_valid(ty, params, expr):
+    """the validation of create_contentfilteredtopic on main: `<member> <=|= ...` on an INT32 member, first parameter an i32"""
+    e = " ".join(expr)
+    member = e.split("<=", 1)[0].strip() if "<=" in e else (e.split("=", 1)[0].strip() if "=" in e else None)
+    int32 = (member == "value" and ty in ("ki", "ni")) or (member == "id" and ty in ("ki", "kb"))
+    first = None if params == "-" else params.split(",")[0]
+    try:
+        ok = first is not None and -2**31 <= int(first) < 2**31
+    except ValueError:
+        ok = False
+    return bool(member is not None and int32 and ok)
 
 
 class Ent:
@@ -188,7 +200,7 @@ class Shadow:
             return
         if self.expect("C36", got, "ok", f"create topic {name}"):
             parent.incs["topic"] = parent.incs.get("topic", 0) + 1
-            self.add(name, Ent("topic", part=parent, tname=tname, keyed=ty in ("ki", "kb")), got.split()[1])
+            self.add(name, Ent("topic", part=parent, tname=tname, keyed=ty in ("ki", "kb"), ty=ty), got.split()[1])
 
     def op_cft(self, a, got):
         name, tp, cname = a[0], self.names.get(a[2]), a[3]
@@ -198,8 +210,11 @@ class Shadow:
         if not part.alive:
             self.expect("C36", got, "err:AlreadyDeleted", "create content-filtered topic on deleted participant")
             return
-        if self.topic_alive(part, tp.tname) is None:
+        related = self.topic_alive(part, tp.tname)
+        if related is None:
             return
+        if not cft_valid(related.ty, a[4], a[5:]):
+            return      # BadParameter for an unsupported filter expression: not part of C35 / C36 (the model predicts it)
         if self.exhausted(part, "topic", got):
             return
         if self.expect("C36", got, "ok", f"create content-filtered topic {name}"):
@@ -382,20 +397,16 @@ class Shadow:
                     w.known.append(0)
                     w.live.append(0)
                 return
-            cause = CAUSE_LOOKUP_KEYLESS if op == "lookup" and is_ok(got) else None
-            self.expect("C28", got, "err:IllegalOperation", what + " on a keyless type", cause)
+            self.expect("C28", got, "err:IllegalOperation", what + " on a keyless type")
             return
         room = w.max_inst is None or len(w.live) < w.max_inst
-        stale = k in w.known and k not in w.live             # unregistered earlier
-        slot_leak = (w.max_inst is not None and len(w.known) >= w.max_inst and room)
         hk = f"ok h({k})"
         if op in ("register", "write"):
             want = ("ok" if op == "write" else hk) if (k in w.live or room) else "err:OutOfResources"
-            cause = CAUSE_UNREG if (stale or slot_leak) else None
             if op == "register" and is_ok(got) and got != hk and want == hk:
                 self.v("C28", f"{what}: returned {got}, the handle of the key is h({k})", None)
             else:
-                self.expect("C28", got, want, what, cause)
+                self.expect("C28", got, want, what)
             if is_ok(got):
                 if k not in w.live:
                     w.live.append(k)
@@ -406,17 +417,17 @@ class Shadow:
                 if self.expect("C28", got, "ok", what):
                     w.live.remove(k)
             else:
-                self.expect("C28", got, "err:BadParameter", what + " (instance not registered)", CAUSE_UNREG if stale else None)
+                self.expect("C28", got, "err:BadParameter", what + " (instance not registered)")
         elif op == "dispose":
             if k in w.live:
                 self.expect("C28", got, "ok", what)
             else:
-                self.expect("C28", got, "err:BadParameter", what + " (instance not registered)", CAUSE_UNREG if stale else None)
+                self.expect("C28", got, "err:BadParameter", what + " (instance not registered)")
         elif op == "lookup":
             if k in w.live:
                 self.expect("C28", got, hk, what)
             else:
-                self.expect("C28", got, "ok none", what + " (instance not registered)", CAUSE_UNREG if stale else None)
+                self.expect("C28", got, "ok none", what + " (instance not registered)")
 
     def op_register(self, a, got):
         self.inst("register", a, got)
@@ -553,7 +564,11 @@ def gen_case(r, prof):
             if names["topic"]:
                 x = fresh("c")
                 t = r.choice(names["topic"])
-                lines.append(f"cft {x} {owner[t]} {t} F{r.range(1, 2)} - value > 5")
+                # `value <= %0` / `id = %0` with an integer parameter is what the code supports (INT32 members only,
+                # so it is refused for the bytes-valued / keyless types); the old `value > 5` form is refused everywhere
+                c = r.below(10)
+                e = "10 value <= %0" if c < 6 else ("3 id = %0" if c < 8 else ("- value > 5" if c < 9 else "x value <= %0"))
+                lines.append(f"cft {x} {owner[t]} {t} F{r.range(1, 2)} {e}")
                 names["cft"].append(x)
                 owner[x] = owner[t]
         elif k == "writer":
